@@ -300,4 +300,11 @@ func FactsC05(f *hc.Facts) {
 	f.Str("decMsgKeySide", nthArg(f, "crypto", "Cipher.Decrypt", "MessageKey", 2), "side argument of MessageKey in Decrypt")
 	f.Bool("decSideIsFlipped", strings.Contains(dsrc, "side := c.encryptSide.DecryptSide()"), "Decrypt: side := c.encryptSide.DecryptSide()")
 	f.Bool("decryptSideFlips", strings.Contains(f.FuncSrc("crypto", "Side.DecryptSide"), "return s ^ 1"), "Side.DecryptSide = s ^ 1")
+	// the copying decoders must size their slice to exactly the incoming bytes (no stale tail on reuse)
+	f.Bool("msgDecodeExactSize", strings.Contains(squash(f.FuncSrc("crypto", "EncryptedMessage.Decode")),
+		"e.EncryptedData = append(e.EncryptedData[:0], make([]byte, b.Len())...) if err := b.ConsumeN(e.EncryptedData, b.Len()); err != nil {"),
+		"EncryptedMessage.Decode: EncryptedData = append(EncryptedData[:0], make([]byte, b.Len())...) then ConsumeN(EncryptedData, b.Len())")
+	f.Bool("dataDecodeExactSize", strings.Contains(squash(f.FuncSrc("crypto", "EncryptedMessageData.Decode")),
+		"e.MessageDataWithPadding = append(e.MessageDataWithPadding[:0], b.Buf...)"),
+		"EncryptedMessageData.Decode: MessageDataWithPadding = append(MessageDataWithPadding[:0], b.Buf...)")
 }
